@@ -36,8 +36,9 @@ def clone(node):
     for a in ("lineno", "col_offset", "end_lineno", "end_col_offset"):
         if hasattr(node, a):
             setattr(new, a, getattr(node, a))
-    if hasattr(node, "_inlined_from"):
-        new._inlined_from = node._inlined_from
+    for a in ("_inlined_from", "_no_dispatch", "_param_binding"):
+        if hasattr(node, a):
+            setattr(new, a, getattr(node, a))
     return new
 
 
@@ -259,6 +260,77 @@ def _stmt_call(stmt):
     return None, None, None
 
 
+def _dispatch_tables(prog, fi):
+    """module-level `NAME = {const: function, ...}` tables of fi's module: name -> [(key, function name)]"""
+    out = {}
+    for st in fi.module.tree.body:
+        if isinstance(st, ast.Assign) and len(st.targets) == 1 and isinstance(st.targets[0], ast.Name) and isinstance(st.value, ast.Dict) and st.value.keys \
+                and all(isinstance(k, ast.Constant) and isinstance(v, ast.Name) for k, v in zip(st.value.keys, st.value.values)):
+            rows = [(k.value, v.id) for k, v in zip(st.value.keys, st.value.values)]
+            if all(any(isinstance(t, FunctionInfo) for t in prog.resolve_expr_fn(v, v)) for v in st.value.values):
+                out[st.targets[0].id] = rows
+    return out
+
+
+def _expand_dispatch(prog, fi, node):
+    """`f = TABLE.get(K)` / `f = TABLE[K]` followed by a statement-position call `f(...)`: the call statement becomes an
+    if-chain over the keys of the (constant, module-level) table with the function named directly in each branch; the
+    final else keeps the original statement (a key outside the table)."""
+    tables = _dispatch_tables(prog, fi)
+    if not tables:
+        return False
+    bound = {}
+    for st in _own_walk(node.body):
+        if isinstance(st, ast.Assign) and len(st.targets) == 1 and isinstance(st.targets[0], ast.Name):
+            v = st.value
+            key = None
+            if isinstance(v, ast.Call) and isinstance(v.func, ast.Attribute) and v.func.attr == "get" and isinstance(v.func.value, ast.Name) and v.func.value.id in tables and v.args:
+                key, tname = v.args[0], v.func.value.id
+            elif isinstance(v, ast.Subscript) and isinstance(v.value, ast.Name) and v.value.id in tables:
+                key, tname = v.slice, v.value.id
+            if key is not None:
+                nme = st.targets[0].id
+                bound[nme] = None if nme in bound else (key, tname)
+    bound = {k: v for k, v in bound.items() if v is not None}
+    n_assign = {}
+    for st in _own_walk(node.body):
+        if isinstance(st, ast.Name) and isinstance(st.ctx, ast.Store) and st.id in bound:
+            n_assign[st.id] = n_assign.get(st.id, 0) + 1
+    bound = {k: v for k, v in bound.items() if n_assign.get(k) == 1}
+    if not bound:
+        return False
+    changed = [False]
+
+    def rewrite(block):
+        out = []
+        for s in block:
+            mode, call, target = _stmt_call(s)
+            if mode and isinstance(call.func, ast.Name) and call.func.id in bound and not getattr(s, "_no_dispatch", False):
+                key, tname = bound[call.func.id]
+                chain = clone(s)
+                chain._no_dispatch = True
+                for k, fname in reversed(tables[tname]):
+                    branch = clone(s)
+                    _stmt_call(branch)[1].func = ast.copy_location(ast.Name(id=fname, ctx=ast.Load()), call.func)
+                    test = ast.Compare(left=clone(key), ops=[ast.Eq()], comparators=[ast.Constant(value=k)])
+                    new_if = ast.If(test=test, body=[branch], orelse=[chain])
+                    ast.copy_location(new_if, s)
+                    ast.fix_missing_locations(new_if)
+                    chain = new_if
+                out.append(chain)
+                changed[0] = True
+                continue
+            for fld in ("body", "orelse", "finalbody"):
+                blk = getattr(s, fld, None)
+                if isinstance(blk, list) and blk and isinstance(blk[0], ast.stmt) and not isinstance(s, (ast.FunctionDef, ast.AsyncFunctionDef, ast.ClassDef)):
+                    setattr(s, fld, rewrite(blk))
+            out.append(s)
+        return out
+
+    node.body = rewrite(node.body)
+    return changed[0]
+
+
 def _link(node, parent):
     node._parent = parent
     for ch in ast.iter_child_nodes(node):
@@ -282,6 +354,9 @@ def inlined(prog, fi):
     for _ in range(MAX_ROUNDS):
         changed = False
         _prepare(prog, new_fi, node, fi)
+        if _expand_dispatch(prog, fi, node):
+            changed = True
+            _prepare(prog, new_fi, node, fi)
 
         def rewrite(block):
             nonlocal changed
